@@ -282,6 +282,24 @@ def rule_S9(F, R):
         removed_before = all(j not in c.reachable_after(p, removed=muts) or p in muts for p in P)
         if removed_before:
             R.ok("S9", "batch moved out of the container when it was cut", where(x.b, j))
+            # then a rejected batch has to be put back before the container is used again
+            reins = set()
+            for d in fl.defs.get(x.X, ()):
+                if d[1] in {i for i, _t in x.rebase}:
+                    continue
+                if d[0] == "mutcall" and not any(REMOVAL_APIS.search(n) for n in call_names(d[4])):
+                    reins.add(d[1])
+                elif d[0] in ("assign", "call") and not d[3]:
+                    reins.add(d[1])
+            for (sw2, j2, lab2) in arms.get("ExpectedParentVersion", []):
+                r2 = c.reachable(j2, removed=reins)
+                hit2 = sorted(targets & r2)
+                if hit2:
+                    R.violation("S9", x.subj, "rejected-batch-dropped",
+                                "the batch is taken out of the pending container before the server answers, and after a rejection %s is reachable without the batch having been put back: the rejected operations are never sent and are then marked synchronised"
+                                % loc(c.term(hit2[0])["sp"]), where(x.b, j2))
+                else:
+                    R.ok("S9", "rejected batch re-inserted before the container is used again", where(x.b, j2))
             continue
         r = c.reachable(j, removed=muts)
         hit = sorted(targets & r)
